@@ -310,7 +310,10 @@ func main() {
 	checkBspLive(res, drv, rng, budget)
 	checkLoggerRace(res, rng, f.Seed, budget)
 	checkCronRace(res, rng, budget)
+	checkCronDescriptors(res, rng, budget)
 	checkHandoff(f, res)
+	checkFileKeyStress(f, res)
+	checkLoggerOutput(f, res)
 
 	// 3. mixed concurrent workload against sequential results
 	workers, nops, rounds := 4, 40, 1
@@ -671,6 +674,12 @@ func replay(f lib.Flags, res *lib.Result, drv *lib.Drv) {
 		}
 	case "handoff":
 		checkHandoff(f, res)
+	case "fkstress":
+		checkFileKeyStress(f, res)
+	case "logout":
+		checkLoggerOutput(f, res)
+	case "cron-desc":
+		checkCronDescriptors(res, lib.NewRand(f.Seed), 1)
 	case "logger-race":
 		var c loggerRaceCase
 		_ = json.Unmarshal(rp.Case, &c)
